@@ -295,8 +295,8 @@ func randomCase(rng interface {
 	c := caseT{Kind: kind}
 	c.Rsize = []uint8{8, 16, 32, 64}[rng.IntN(4)]
 	c.R = uint8(1 + rng.IntN(3))
-	c.N = uint8(rng.IntN(3))
-	c.M = uint8(rng.IntN(3))
+	c.N = uint8([]int{0, 1, 1, 2, 2, 3, 4, 5}[rng.IntN(8)])
+	c.M = uint8([]int{0, 1, 1, 2, 2, 3, 4, 5}[rng.IntN(8)])
 	c.L = 0
 	pool := claimedPool(c.Rsize)
 	k := 2 + rng.IntN(7)
@@ -459,10 +459,50 @@ func cornerCases(rsize uint8) []caseT {
 	}
 }
 
+// port sweep: every input and output index of machines with 0..5 inputs and 1..5 outputs
+// (so that the input- and output-index fields have different widths), plain and handshaked
+func portCases(rsize uint8) []caseT {
+	var cs []caseT
+	for n := 0; n <= 5; n++ {
+		for m := 1; m <= 5; m++ {
+			for _, hs := range []bool{false, true} {
+				c := caseT{Kind: "ports", Rsize: rsize, R: 2, N: uint8(n), M: uint8(m)}
+				wr, rd := "r2o", "i2r"
+				if hs {
+					wr, rd = "r2owa", "i2rw"
+				}
+				for k := 0; k < m; k++ {
+					c.Prog = append(c.Prog, fmt.Sprintf("rset r0 %d", uint64((k+1)*17)&mask(rsize)), fmt.Sprintf("%s r0 o%d", wr, k))
+				}
+				for k := 0; k < n; k++ {
+					c.Prog = append(c.Prog, fmt.Sprintf("%s r%d i%d", rd, 1+k%3, k), fmt.Sprintf("%s r%d o%d", wr, 1+k%3, (k+1)%m))
+				}
+				c.Prog = append(c.Prog, fmt.Sprintf("j %d", len(c.Prog)))
+				c.Ops = opsIn(c.Prog)
+				c.O = uint8(procbuilder.Needed_bits(len(c.Prog)))
+				for k := 0; k < n; k++ {
+					c.Env.Const = append(c.Env.Const, uint64((k+1)*13)&mask(rsize))
+					if hs {
+						c.Env.Streams = append(c.Env.Streams, []uint64{uint64(100+k) & mask(rsize), uint64(110+k) & mask(rsize)})
+					} else {
+						c.Env.Streams = append(c.Env.Streams, nil)
+					}
+					c.Env.Gap = append(c.Env.Gap, k%2)
+				}
+				for k := 0; k < m; k++ {
+					c.Env.AckDelay = append(c.Env.AckDelay, 1+k%2)
+				}
+				cs = append(cs, c)
+			}
+		}
+	}
+	return cs
+}
+
 func main() {
 	tier, replay := hx.Args()
 	run := evid.New("C01", tier, "translation_validation")
-	run.Rule = "cases = (architecture, program, environment): directed sweeps (every two-register opcode of the claimed cells × destination/source register pairs × boundary operand values, R=1,2) and seeded random programs over random opcode subsets of the claimed cells (Rsize 8/16/32/64, R 1..3, N,M 0..2, WordSize automatic or +3, handshaked and constant inputs, output ack delays); non-trivial = both back ends retired ≥5 instructions and a register changed, distinct by the case text"
+	run.Rule = "cases = (architecture, program, environment): directed sweeps (every two-register opcode of the claimed cells × destination/source register pairs × boundary operand values, R=1,2) and seeded random programs over random opcode subsets of the claimed cells (Rsize 8/16/32/64, R 1..3, N,M 0..5, a port sweep over every input/output index for N 0..5 x M 1..5, WordSize automatic or +3, handshaked and constant inputs, output ack delays); non-trivial = both back ends retired ≥5 instructions and a register changed, distinct by the case text"
 	run.Assume = []string{"vsim executes the generated Verilog (2-state; '#1' intra-assignment delays ignored, exact for clock periods longer than the delay)",
 		"co-implementation table internal/gen/coimpl.go decides which (opcode, Rsize) cells are compared; excluded cells are listed in the evidence",
 		"execution mode ha, Threaded = 0 (the simulator has neither RAM-resident code nor a context switch)",
@@ -589,6 +629,9 @@ func main() {
 	}
 	for _, rs := range []uint8{8, 16, 32, 64} {
 		cs = append(cs, cornerCases(rs)...)
+	}
+	for _, rs := range sizes {
+		cs = append(cs, portCases(rs)...)
 	}
 	nDirected := len(cs)
 	rng := hx.RNG(run.Seed, "c01")
